@@ -200,12 +200,36 @@ def mem_stage(tier, seed, key, P):
         if per_key[v["key"]] <= 3:
             v["replay"] = P.write_replay(v, job)
         viols.append({k: v[k] for k in ("id", "prop", "why", "spec", "ev", "fam", "key", "replay") if k in v})
+    # measured: distinct executions, and those in which a value allocated by one thread is dereferenced by another
+    import hashlib
+    seen, cross = set(), 0
+    for pth in res["files"]:
+        cur, alloc_by, is_cross = [], {}, False
+        for line in open(pth):
+            if line.startswith('{"e":"begin"'):
+                cur, alloc_by, is_cross = [], {}, False
+            elif line.startswith('{"e":"end"'):
+                k = hashlib.md5("".join(cur).encode()).hexdigest()
+                if k not in seen:
+                    seen.add(k)
+                    cross += is_cross
+            elif '"e":"at"' not in line:
+                cur.append(line)
+                if '"e":"alloc"' in line:
+                    e = json.loads(line)
+                    alloc_by[e["o"]] = e["t"]
+                elif '"e":"deref"' in line:
+                    e = json.loads(line)
+                    if e["o"] in alloc_by and alloc_by[e["o"]] != e["t"]:
+                        is_cross = True
     # ordering table extracted from the code by the trace specification
     ords = P.collect_ords(res["files"], wd)
     design = json.load(open(os.path.join(P.SPEC, "Ord_design.json"))) if os.path.exists(os.path.join(P.SPEC, "Ord_design.json")) else {}
     diff = {k: [design.get(k), v] for k, v in ords.items() if design.get(k) != v}
     out = {"viols": viols, "traces": res["execs"],
-           "coverage": {"mem_events_validated": res["events"], "ord_table_sites": len(ords), "ord_table_diff": diff,
+           "coverage": {"evaluations": res["execs"], "distinct_nontrivial": cross, "distinct_executions": len(seen),
+                        "rule": "executions of the real crate with all atomic accesses logged, validated by TLC against spec/Trace_Mem.tla; distinct by hash of the event sequence; non-trivial = a value allocated by one thread is dereferenced by another thread",
+                        "mem_events_validated": res["events"], "ord_table_sites": len(ords), "ord_table_diff": diff,
                         "mem_wall_s": round(time.time() - t0, 1)},
            "samples": [{"ordering_table_sample": dict(list(ords.items())[:6])}]}
     with open(marker, "w") as f:
@@ -215,7 +239,7 @@ def mem_stage(tier, seed, key, P):
 
 EXTRA["C07"] = mem_stage
 EXTRA["C11"] = mem_stage
-PROPS["C07"] = {"level": "model_checking", "conc": False, "assumptions": [
+PROPS["C07"] = {"level": "exploration", "conc": False, "assumptions": [
     "happens-before is computed by the Mem specification (release/acquire, release sequences, fences; SeqCst = AcqRel on an interleaving) from the orderings the code actually requested, logged by the shim",
     "the instrumented pointer type follows Arc: increment Relaxed, decrement Release, Acquire fence at zero",
     "executions are interleavings: races that need a stale (non-latest) read are outside this monitor (DESIGN section 4)"]}
